@@ -91,6 +91,28 @@ func IntBits(name string, bits int) int64 {
 func Int16(name string) int16 { return int16(get(name)) }
 func Itoa(n int64) string     { return strconv.FormatInt(n, 10) }
 
+// Decimal renders n x 10^-scale as a DynamoDB numeral: sign, integer digits and, for scale > 0, a point and exactly
+// scale fraction digits (Decimal(-125, 2) = "-1.25", Decimal(5, 2) = "0.05"). Under the engine the text of a
+// symbolic n is opaque; strconv.ParseFloat of it is the correctly rounded quotient n / 10^scale.
+func Decimal(n int64, scale int) string {
+	neg := n < 0
+	u := uint64(n)
+	if neg {
+		u = uint64(-n)
+	}
+	d := strconv.FormatUint(u, 10)
+	if scale > 0 {
+		for len(d) <= scale {
+			d = "0" + d
+		}
+		d = d[:len(d)-scale] + "." + d[len(d)-scale:]
+	}
+	if neg {
+		d = "-" + d
+	}
+	return d
+}
+
 // ParseInt reads back a decimal integer text (under the engine: the integer term the text was made of).
 func ParseInt(s string) (int64, bool) {
 	n, err := strconv.ParseInt(s, 10, 64)
